@@ -931,7 +931,7 @@ static void sec_e2e(int thorough)
 		for (k = 0; k < 40; k++) printf("add %lu %d\n", k, do_add(ht, k));
 		reader_attach(ht, 0, 40);
 		for (i = 0; i < sizeof dreq / sizeof dreq[0]; i++) {
-			run_resize(ht, dreq[i], 3000);
+			run_resize(ht, dreq[i], 8000);
 			check_keys(ht, 40);
 		}
 		reader_detach();
